@@ -290,13 +290,15 @@ class Index:
                 rel = os.path.relpath(p, self.repo)
                 if rel in self.overlay:
                     text = self.overlay[rel]
+                    if text is None:
+                        continue              # the variant removes (or renames away) this file
                 else:
                     with open(p, "r", encoding="utf-8") as fh:
                         text = fh.read()
                 sources.append((rel, text))
         # files that exist only in the overlay (a variant that adds a module)
         sources += sorted((rel, text) for rel, text in self.overlay.items()
-                          if rel.startswith(PKG + "/") and rel.endswith(".py") and rel not in {r for r, _t in sources})
+                          if text is not None and rel.startswith(PKG + "/") and rel.endswith(".py") and rel not in {r for r, _t in sources})
         for rel, text in sources:
             if True:
                 self.digest.update(rel.encode() + b"\0" + text.encode() + b"\0")
@@ -312,7 +314,7 @@ class Index:
         self.renames: List[str] = resolve_renames({rel: t for rel, (_x, t) in raw.items()},
                                                   {rel: hashlib.sha256(x.encode()).hexdigest()[:16] for rel, (x, _t) in raw.items()})
         for rel, (text, tree) in raw.items():
-            self.modules[rel] = Module(rel, text, tree)
+            self.modules[getattr(tree, "_profile_rel", None) or rel] = Module(getattr(tree, "_profile_rel", None) or rel, text, tree)
         self.class_by_name: Dict[str, List[ClassInfo]] = {}
         for m in self.modules.values():
             for c in m.classes.values():
@@ -515,6 +517,8 @@ def run_check(prop: str, fn: CheckFn, repo: str, tier: str, evidence_dir: Option
     idx: Optional[Index] = None
     try:
         idx = Index(repo)
+        for r in idx.renames[:40]:           # what the view read under another name than the tree writes (section 2.12 of DESIGN.md)
+            res.note("names: " + r[:300])
         fn(idx, tier, res)
         for name, count, floor in res.floors:
             if count < floor:
